@@ -138,8 +138,9 @@ impl C13 {
 
     fn random_long(&self, case: &Case) -> CaseOut {
         let mut t = Tape::new(&case.main);
-        let names = ["a", "bc", "\u{e9}", "x.y", "..a", "...", "\u{20ac}\u{20ac}", ".hidden", "d"];
-        let n = 1 + t.below(60);
+        // (names that look like drive prefixes, home directories or URL escapes are ordinary names to a lexical rule)
+        let names = ["a", "bc", "\u{e9}", "x.y", "..a", "...", "\u{20ac}\u{20ac}", ".hidden", "d", "c:", "C:", ":", "a:b", "~", "%2e%2e", " ", "-", "@x"];
+        let n = if t.chance(40) { 1 + t.below(6) } else { 1 + t.below(60) };
         let mut s = String::new();
         if t.chance(25) {
             s.push(*t.pick(&['/', '\\']));
